@@ -305,6 +305,21 @@ func (r *resolver) ResolveType(t *parser.Type) (err error) {
 // included IDL or -1 if the enum is defined in the given AST.
 // When such an enum is not found, getEnum returns (nil, -1).
 func getEnum(ast *parser.Thrift, name string) (enum *parser.Enum, includeIndex int32) {
+	return getEnumVisited(ast, name, make(map[enumVisit]bool))
+}
+
+type enumVisit struct {
+	ast  *parser.Thrift
+	name string
+}
+
+// getEnumVisited is getEnum with a guard against typedef cycles, which are
+// only rejected after constants have been resolved.
+func getEnumVisited(ast *parser.Thrift, name string, visited map[enumVisit]bool) (enum *parser.Enum, includeIndex int32) {
+	if visited[enumVisit{ast, name}] {
+		return nil, -1
+	}
+	visited[enumVisit{ast, name}] = true
 	c, exist := ast.Name2Category[name]
 	if !exist {
 		return nil, -1
@@ -321,12 +336,12 @@ func getEnum(ast *parser.Thrift, name string) (enum *parser.Enum, includeIndex i
 			panic(fmt.Errorf("expect %q to be an typedef in %q, not found", name, ast.Filename))
 		} else {
 			if r := x.Type.Reference; r != nil {
-				e, _ := getEnum(ast.Includes[r.Index].Reference, r.Name)
+				e, _ := getEnumVisited(ast.Includes[r.Index].Reference, r.Name, visited)
 				if e != nil {
 					return e, r.Index
 				}
 			}
-			return getEnum(ast, x.Type.Name)
+			return getEnumVisited(ast, x.Type.Name, visited)
 		}
 	}
 	return nil, -1
